@@ -142,7 +142,18 @@ func (e *Exec) scenarioShape(path string, t types.Type, a string) ([]altFn, bool
 			cr := s.alloc(zeroVal(caserT))
 			delete(s.Fresh, cr.Cell)
 			s.CellTypes[cr.Cell] = caserT
-			gr := s.alloc(mkStruct(genT, map[string]Val{"config": cfg, "warner": Opaque{Tag: "warner", Typ: strFn}, "caser": cr}))
+			// both formatters, as with --extra-imports
+			var fmts []Val
+			for _, fname := range []string{"jsonFormatter", "yamlFormatter"} {
+				ft := w.namedType("pkg/generator", fname)
+				fr2 := s.alloc(zeroVal(ft))
+				delete(s.Fresh, fr2.Cell)
+				s.CellTypes[fr2.Cell] = ft
+				fmts = append(fmts, Iface{Dyn: types.NewPointer(ft), V: fr2})
+			}
+			far := s.alloc(&Agg{Elems: fmts})
+			delete(s.Fresh, far.Cell)
+			gr := s.alloc(mkStruct(genT, map[string]Val{"config": cfg, "warner": Opaque{Tag: "warner", Typ: strFn}, "caser": cr, "formatters": SliceV{Arr: far, Len_: 2, Cap: 2}}))
 			delete(s.Fresh, gr.Cell)
 			s.CellTypes[gr.Cell] = genT
 			sg := mkStruct(p.Elem(), map[string]Val{"Generator": gr, "output": or})
